@@ -19,11 +19,6 @@ verus! {
 //@end
 //@extract struct file="versatiles_container/src/container/pmtiles/types/entries_v3.rs" name="EntriesSliceV3"
 //@end
-impl ValueWriterBlob {
-	// ValueWriterBlob::new_le / into_blob: a fresh in-memory writer and its bytes (io::Cursor<Vec<u8>>)
-	pub fn new_le() -> (r: ValueWriterBlob) ensures r.sink.buf@ == Seq::<u8>::empty() { ValueWriterBlob { sink: ByteSink { buf: Vec::new() } } }
-	pub fn into_blob(self) -> (r: Blob) ensures r@ == self.sink.buf@ { Blob::from_vec(self.sink.buf) }
-}
 
 // ---- the PMTiles v3 rules (spec section "Directories"), independent of this code's writer
 pub open spec fn sorted(s: Seq<EntryV3>) -> bool { forall|i: int, j: int| 0 <= i <= j < s.len() ==> s[i].tile_id <= s[j].tile_id }
